@@ -321,9 +321,14 @@ func firstUseConcurrent(viol func(prop, name, q, detail string)) int {
 	done := 0
 	for i, sample := range hugeSamples {
 		name := hugeName(i)
-		if _, err := sqlair.Prepare("SELECT &"+name+".c000 FROM t", sample); err != nil {
-			viol("C07", "well-typed-statement-rejected", "SELECT &"+name+".c000 FROM t", err.Error())
-			continue
+		// every other type is not known to the library at all when the goroutines start (half of them
+		// name a member, half the asterisk)
+		unseen := i%2 == 1
+		if !unseen {
+			if _, err := sqlair.Prepare("SELECT &"+name+".c000 FROM t", sample); err != nil {
+				viol("C07", "well-typed-statement-rejected", "SELECT &"+name+".c000 FROM t", err.Error())
+				continue
+			}
 		}
 		q := "SELECT &" + name + ".* FROM t"
 		var wg sync.WaitGroup
@@ -332,6 +337,7 @@ func firstUseConcurrent(viol func(prop, name, q, detail string)) int {
 		start := make(chan struct{})
 		for g := 0; g < 8; g++ {
 			wg.Add(1)
+			g := g
 			go func() {
 				defer wg.Done()
 				defer func() {
@@ -342,7 +348,11 @@ func firstUseConcurrent(viol func(prop, name, q, detail string)) int {
 					}
 				}()
 				<-start
-				if _, err := sqlair.Prepare(q, sample); err != nil {
+				qq := q
+				if unseen && g%2 == 1 {
+					qq = "SELECT &" + name + ".c007 FROM t"
+				}
+				if _, err := sqlair.Prepare(qq, sample); err != nil {
 					mu.Lock()
 					bad = err.Error()
 					mu.Unlock()
